@@ -337,6 +337,9 @@ def c04(tier, seed):
     v5 = validate_family(res, "C04", tr5, cs5, "longrun")
     add_cov(res, v5, m5["runs"], [], "longrun")
     res.coverage["longrun"] = m5
+    # API interleavings on one solver object (Session.tla): the iteration budget edited between solves
+    from props import structs as _st
+    _st.session_replay(res, "C04", tier, seed, wd, "limit,panic")
     # the timers behind solve_time / time_limit: Timers.tla behaviours replayed on the real Timers with real sleeps
     from props import structs
     rt = structs.spec_to_impl(res, "C04", "Timers.tla", ["MC_Timers_5.cfg" if tier == "quick" else "MC_Timers.cfg"], "timers-replay", wd, "timers",
@@ -361,6 +364,7 @@ def c20(tier, seed):
     rp = structs.spec_to_impl(res, "C20", "Print.tla", ["MC_Print_replay.cfg" if tier == "quick" else "MC_Print_replay6.cfg"], "printseq-replay", wd, "printseq",
                               workers=6, extra_args=["--dir", wd])
     res.coverage["print_sequences"] = {"states": rp["states"], "behaviours_replayed": rp["behaviours"]}
+    structs.session_replay(res, "C20", tier, seed, wd, "buffer")
     for k, fam in enumerate(["mixed", "badscale"]):
         tr, cs = [os.path.join(wd, f"print{k}" + x) for x in (".ndjson", ".cases.ndjson")]
         cnt = (120 if tier == "quick" else 3000) // (k + 1)
